@@ -9,6 +9,6 @@ export CARGO_NET_OFFLINE=true
 (cd harness && cargo build --offline --features serialize --target-dir $V/.build/cargo-serialize 2>&1 | tail -1)
 (cd harness_sendsync && cargo build --offline --target-dir $V/.build/cargo-sendsync 2>&1 | tail -1)
 python3 tools/gen_tables.py >/dev/null
-(cd lean && lake build driver TlsModel 2>&1 | tail -2)
+(cd lean && lake build driver TlsModel DriverLib:static TlsModel:static 2>&1 | tail -2)
 # coverage-guided corpus generator (tools/cg.py): pre-build so that a later rebuild against a changed /repo is incremental
 (cd cgfuzz && RUSTFLAGS="--cfg tls_parser_verif" cargo +nightly fuzz build -s none --target-dir $V/.build/cgfuzz 2>&1 | tail -1)
